@@ -56,6 +56,7 @@ type Gen struct {
 	ctCache        map[*ssa.Function]ctEntry
 	mapNonNil      map[string][]string
 	boxNonNil      map[string][]string
+	callVacuity    bool                 // -callvac
 	cwUsed         map[string]bool      // callees some contract asks `calledwith` about
 	oldSyms        map[string]*symEntry // symbol table of the pinned tree (-symtab)
 	renameCache    map[*ssa.Function]map[string]string
@@ -385,6 +386,7 @@ func main() {
 	dump := flag.Bool("dump", false, "print SSA of selected functions")
 	frameF := flag.Bool("frames", false, "print inferred frames of selected functions")
 	noSlice := flag.Bool("noslice", false, "write full (unsliced) queries")
+	callVac := flag.Bool("callvac", false, "add a reachability (vacuity) obligation after every call site")
 	symtabF := flag.String("symtab", "", "symbol table of the pinned tree (baseline/symtab.json): tolerate renamed parameters/locals, inline helpers that are new")
 	flag.Parse()
 	if *out == "" {
@@ -397,6 +399,7 @@ func main() {
 		fmt.Fprintln(os.Stderr, "load:", err)
 		os.Exit(2)
 	}
+	g.callVacuity = *callVac
 	g.oldSyms = loadSymtab(*symtabF)
 	g.renameCache = map[*ssa.Function]map[string]string{}
 	var want []string
